@@ -19,6 +19,7 @@ SPEC = PropertySpec(
 )
 
 SITE = MODEL + ":Model._expand_vectors"
+GEN = "src/pymoca/backends/casadi/generator.py"
 
 
 def signature_lists(ctx, R):
@@ -263,6 +264,50 @@ def r18_8(ctx, rep):
     no_charset_strip(ctx, rep, "R18.8", MODEL, "the CasADi model, _expand_vectors in particular")
 
 
+@SPEC.rule(
+    "R18.9",
+    "the shape a variable is expanded with is the shape of its value: in Generator.get_symbol every read of the value's shape inside the "
+    "dimension loops uses one and the same running index (the counter the loop advances once per declared dimension over all nesting levels), "
+    "and in _expand_vectors the residual is split in the element order the names are generated in — ca.vec() is applied to the equation itself, not "
+    "to a transposed or reshaped copy",
+)
+def r18_9(ctx, rep):
+    R = "R18.9"
+    fn = ctx.func(GEN, "Generator.get_symbol", R)
+    site = GEN + ":Generator.get_symbol"
+    # lists indexed by a plain name inside a loop whose body advances a counter with `+= 1`
+    groups = {}
+    for lp in walk_local(fn):
+        if not isinstance(lp, ast.For):
+            continue
+        counters = {x.target.id for x in ast.walk(lp) if isinstance(x, ast.AugAssign) and isinstance(x.target, ast.Name) and isinstance(x.op, ast.Add)}
+        if not counters:
+            continue
+        for x in ast.walk(lp):
+            if isinstance(x, ast.Subscript) and isinstance(x.value, ast.Name) and isinstance(x.slice, ast.Name) and isinstance(x.ctx, ast.Load):
+                groups.setdefault(x.value.id, {"idx": set(), "counters": set()})
+                groups[x.value.id]["idx"].add(x.slice.id)
+                groups[x.value.id]["counters"] |= counters
+    n = 0
+    for lst, g in sorted(groups.items()):
+        if not (g["idx"] & g["counters"]):
+            continue  # a list that is never read through a running counter
+        n += 1
+        rep.ob(R, site, "all reads of `%s[...]` use the running index" % lst, g["idx"] <= g["counters"],
+               "`%s` is read with %s: the running counter %s advances over all nesting levels, the other index restarts at every level — for an array inside a "
+               "component array the size of an unspecified `[:]` dimension is then taken from the wrong dimension of the value" % (lst, sorted(g["idx"]), sorted(g["idx"] & g["counters"])))
+    if n < 1:
+        raise MechanismMissing(R, "no list read through a running counter found in get_symbol")
+    ev = ctx.func(MODEL, "Model._expand_vectors", R)
+    vecs = [c for c in calls(ev) if (call_name(c) or "").endswith("ca.vec") and c.args]
+    if len(vecs) < 2:
+        raise MechanismMissing(R, "fewer than 2 ca.vec(...) splits found in _expand_vectors")
+    for c in vecs:
+        rep.ob(R, SITE, "`%s` flattens the equation itself" % norm(c)[:40], isinstance(c.args[0], ast.Name),
+               "the argument of ca.vec is `%s`: the rows of the expanded residual come out in another order than the unexpanded residual's elements (and than the "
+               "expanded variables' names)" % norm(c.args[0])[:40])
+
+
 # -- seeded variants ---------------------------------------------------------
 from ._mut import replace_in_func  # noqa: E402
 
@@ -350,6 +395,18 @@ def _m_lastlevel(mod):
             if isinstance(n, ast.Compare) and norm(n.left).startswith("set(") and "_modelica_shape" in norm(n.left):
                 n.left = ast.Subscript(value=n.left.args[0], slice=ast.UnaryOp(op=ast.USub(), operand=ast.Constant(value=1)), ctx=ast.Load())
                 n.comparators = [ast.parse("(None,)", mode="eval").body]
+                return True
+        return False
+
+    return mod if replace_in_func(mod, "Model._expand_vectors", edit) else None
+
+
+@SPEC.mutant("equations split after transposing", MODEL, "R18.9", "flattens the equation itself")
+def _m_vec_T(mod):
+    def edit(fn):
+        for c in ast.walk(fn):
+            if isinstance(c, ast.Call) and norm(c.func) == "ca.vec" and c.args and isinstance(c.args[0], ast.Name):
+                c.args[0] = ast.Attribute(value=c.args[0], attr="T", ctx=ast.Load())
                 return True
         return False
 
